@@ -10,7 +10,7 @@ SPEC = {
     "allowed_axioms": _m.ALLOWED,
     "harness_pkg": "hx_query",
     "harness_bin": "c33",
-    "n": {"quick": 300, "thorough": 6000},
+    "n": {"quick": 420, "thorough": 8400},
     "harness_timeout": {"quick": 600, "thorough": 3000},
     "trusted_base": [
         "Coq 8.16.1 kernel + vm_compute (no native_compute); coqchk re-check in the thorough tier",
@@ -36,7 +36,7 @@ SPEC = {
                 "timeout off). Direct search and correspondence: generated queries with large intermediate results under random "
                 "max_intermediate_rows / max_collection_items, compared with the unlimited run: the outcome must be the identical complete result "
                 "or a resource-limit error; the faithful model must equal the engine's unlimited result. The probed defect (a limit error dropped "
-                "by DISTINCT, truncated result) had the same root cause as C22 and is repaired by 5cbdabf; its query runs first.",
+                "by DISTINCT, truncated result) had the same root cause as C22 and is repaired by 5cbdabf; its query runs first. Also generated: CALL { } and EXISTS { } subqueries (engine only, not in the model) with the additional oracle that a limit exceeded by construction must produce the limit error; known finding K-C33-exists: a collection-limit error inside EXISTS { } becomes NULL and the row is dropped (same root as K-C22-exists).",
         "design_ref": "DESIGN.md §5 C33, §8",
         "level_note": "Partial proof (single guard / top guard / collect); pipeline-level soundness sampled only; time limits not covered.",
         "technique": "Rocq proof (induction over row streams) + vm_compute model/implementation correspondence + direct complete-or-limit-error check on the engine",
